@@ -15,7 +15,7 @@ def handle (case obs : List String) : String × String :=
       (flag, if c.cfg.comp.isSome then (tableCodec c.tab).cz .gzip it else it)))
     let ds := obsData obs
     (encColumn c obs,
-     verdict [("no-panic", !obs.any isBad),
+     verdict [("no-panic", !obs.any isBad), ("no-lost-wakeup", noLostWakeup obs),
               ("bytes-are-spec-framing-of-messages", eqConcat ds expected),
               ("no-empty-chunk", ds.all (fun d => !d.isEmpty)),
               ("chunks-are-whole-frames", ds.all (fun d => (Spec.Framing.split d).2.isEmpty)),
@@ -27,7 +27,7 @@ def handle (case obs : List String) : String × String :=
     let msgs := (frs.filterMap (payloadMsg c.tab)).filterMap (recvOfCase c).de
     let rest := (obs.filter (fun t => t ≠ "p" && tokKind t ≠ 'a')).drop msgs.length
     (runDec c,
-     verdict [("no-panic", !obs.any isBad),
+     verdict [("no-panic", !obs.any isBad), ("no-lost-wakeup", noLostWakeup obs),
               ("case-is-valid-stream", left.isEmpty && msgs.length == frs.length),
               ("messages-in-order", obsMsgs obs == msgs),
               ("then-clean-end", !rest.isEmpty && rest.all (fun t => t = "n"))])
